@@ -72,6 +72,7 @@ def run(check: Check):
   _jit_like(check, repo.func(MOD, 'ForEachClientDebugBackend.__call__').nested('run'))
   _run_client(check, repo.func(MOD, 'ForEachClientJitBackend.__call__').nested('run_client'))
   _debug_fold(check, repo.func(MOD, 'ForEachClientDebugBackend.__call__').nested('run'))
+  _backend_runs(check)
   _pmap(check)
   _wrapper(check)
   # ---------------- R-SCOPE
@@ -721,3 +722,36 @@ def _scope(check: Check):
   uses_getter = any(gff.callee(c).kind == 'func' and gff.callee(c).func.name == 'get_for_each_client_backend' for _, c in gff.calls())
   check.ob('R-SCOPE.lookup', g, 'get_for_each_client_backend()', uses_getter,
            'for_each_client must consult the current thread\'s selection each time it is called')
+
+
+def _backend_runs(check: Check):
+  """Every backend's `run` generator: (1) in the loop over the clients every iteration reaches a yield - no client is skipped (an empty
+  client still gets final(init(...))); (2) `run` keeps nothing between calls: it does not mutate or rebind a variable of the enclosing
+  __call__ (a scratch list or a cache hoisted out of `run` is shared by every invocation and by interleaved generators)."""
+  repo = check.repo
+  from fjsa.rules.pure import PurityAnalysis
+  pa = PurityAnalysis(repo)
+  for cname in ('ForEachClientDebugBackend', 'ForEachClientJitBackend', 'ForEachClientPmapBackend'):
+    call = repo.func(MOD, f'{cname}.__call__')
+    run = call.nested('run')
+    ff = FuncFlow.of(repo, run)
+    check.analysed(run)
+    clients_p = run.positional_params[1] if len(run.positional_params) > 1 else None
+    for n in ff.cfg.nodes:
+      if n.kind != 'for' or clients_p is None or ff.param_of(n.ast.iter) != clients_p:
+        continue
+      ys = [x for x in ast.walk(n.ast) if isinstance(x, (ast.Yield, ast.YieldFrom))]
+      if not ys:
+        continue   # the pmap backend yields from a later loop over blocks
+      jumps = [x for x in ast.walk(n.ast) if isinstance(x, ast.Continue) and wmean._loop_of(ff, x) is n.ast]
+      check.ob('R-YIELD1.every', run, f'for ... in {clients_p}', not jumps,
+               'every client yields a result: no `continue` skips a client (one without batches still gets final(init(shared, input)))',
+               node=jumps[0] if jumps else n.ast, exact=True)
+    outer_locals = {name for name, bs in call.scope.bindings.items() if not any(b.kind == 'param' for b in bs)}
+    for mu in pa.mutations(run):
+      root = mu.root
+      if root.startswith('<captured:') and root[len('<captured:'):-1] in outer_locals:
+        check.ob('R-PURE.backend-state', run, mu.construct, False,
+                 f'{mu.how}: `{root[len("<captured:"):-1]}` lives in the enclosing __call__, i.e. as long as the compiled for_each_client '
+                 'function: what one call (or one abandoned generator) leaves there is seen by the next', node=mu.node, exact=True)
+
